@@ -184,6 +184,11 @@ func init() {
 		}
 		return res
 	}
+	h["verifAllocLimit"] = func(in *Interp, caller *frame, fn *ssa.Function, args []Value) Value {
+		in.allocLimitName = strArg(in, args[0])
+		in.allocLimit = Resize(args[1].(*Term), 64, true)
+		return nil
+	}
 	h["verifFill"] = func(in *Interp, caller *frame, fn *ssa.Function, args []Value) Value {
 		return in.verifFill(args)
 	}
@@ -193,6 +198,18 @@ func init() {
 		}
 		in.config[strArg(in, args[0])] = true
 		return nil
+	}
+	// write-set tracking (C20 confinement): verifWriteWatch() marks "now";
+	// verifForeignWrites() = number of stores since then into cells that existed
+	// before the mark (package state, caller-owned objects), not counting the
+	// sync.Map plan caches.
+	h["verifWriteWatch"] = func(in *Interp, caller *frame, fn *ssa.Function, args []Value) Value {
+		in.writeMark = in.cellSeq
+		in.foreignWrites = nil
+		return nil
+	}
+	h["verifForeignWrites"] = func(in *Interp, caller *frame, fn *ssa.Function, args []Value) Value {
+		return intT(int64(len(in.foreignWrites)))
 	}
 	h["verifSymbolic"] = func(in *Interp, caller *frame, fn *ssa.Function, args []Value) Value { return TT.True }
 	h["verifIsOpaque"] = func(in *Interp, caller *frame, fn *ssa.Function, args []Value) Value {
